@@ -263,6 +263,25 @@ impl SynChain {
             .pack()
     }
 
+    /// chain root and MMR proof of a forged history: leaf i (i < last) is `other`'s block where `from_other(i)`, this chain's
+    /// block otherwise (no such chain exists - parent links break - but an MMR does not care)
+    pub(crate) fn hybrid_root_and_proof(&self, other: &SynChain, last: u64, from_other: &dyn Fn(u64) -> bool, numbers: &[u64]) -> (packed::HeaderDigest, Vec<packed::HeaderDigest>) {
+        let store = Store::default();
+        let mut size = 0u64;
+        for i in 0..last {
+            let mut mmr: MMR<packed::HeaderDigest, MergeHeaderDigest, &Store> = MMR::new(size, &store);
+            let h = if from_other(i) { &other.headers[i as usize] } else { &self.headers[i as usize] };
+            mmr.push(h.digest()).expect("push");
+            size = mmr.mmr_size();
+            mmr.commit().expect("commit");
+        }
+        let mmr: MMR<packed::HeaderDigest, MergeHeaderDigest, &Store> = MMR::new(size, &store);
+        let root = mmr.get_root().expect("root");
+        let positions: Vec<u64> = numbers.iter().map(|n| leaf_index_to_pos(*n)).collect();
+        let proof = if numbers.is_empty() { Vec::new() } else { mmr.gen_proof(positions).expect("gen proof").proof_items().to_owned() };
+        (root, proof)
+    }
+
     /// header + transactions of block `number`
     pub(crate) fn block(&self, number: u64) -> packed::Block {
         packed::Block::new_builder().header(self.headers[number as usize].data()).transactions(self.bodies[number as usize].clone().pack()).build()
